@@ -143,8 +143,16 @@ def run(ctx: Ctx) -> None:
                 dec = uu.TransformerDecoder(hidden_size=8, vocab_size=16, layers=L, heads=2,
                                             residual_scaling=rules.setdefault(
                                                 (r, rho), transformer_residual_scaling_rule(float(r), float(rho))))
+            conv = ctx.rng.choice([None, None, "bfloat16", "half-float", "float"])
+            if conv == "bfloat16":
+                dec = dec.to(torch.bfloat16)
+            elif conv == "half-float":
+                dec = dec.half().float()
+            elif conv == "float":
+                dec = dec.double().float()
             stack = dec.layers
-            case = {"TransformerDecoder": {"layers": L, "r": str(r), "rho": str(rho), "rule": str(pair == "default")}}
+            case = {"TransformerDecoder": {"layers": L, "r": str(r), "rho": str(rho), "rule": str(pair == "default"),
+                                           "converted": conv}}
             ctx.count(case)
             # reference taus from a fresh rule object
             fresh = transformer_residual_scaling_rule(float(r), float(rho))
